@@ -375,7 +375,11 @@ static long seq_dfs(const Space& SP, const Model& M, std::vector<int>& hist, int
       if (!(exp.fatal && exit1 && out.find("MASA FATAL ERROR") != std::string::npos)) { std::string h; for (int q : hist) h += std::to_string(q) + ","; fprintf(fo, "V\t-2\t%zu\t[history %s%zu,] op %s: process ended (wait status %d) %s; stdout=%s\n", k, h.c_str(), k, esc(SP.ops[k].str()).c_str(), st, exp.fatal ? "without the fatal-error protocol" : "where the model expects success", esc(out.substr(0, 200)).c_str()); }
       continue;
     }
+#ifdef MASA_EXCEPTIONS
+    if (depth <= 1) continue;  // exception build: a caught fatal error is an ordinary step, the history goes on through it
+#else
     if (exp.fatal || depth <= 1) continue;  // (an unexpected survival of a fatal operation was reported by the checker)
+#endif
     // (2) carrier: a second forked copy executes the operation only (no observation) and explores everything below it
     int pfd[2]; if (pipe(pfd)) _exit(4);
     fflush(fo); pid_t c = fork();
@@ -430,7 +434,9 @@ int main(int argc, char** argv) {
           // the prefix itself: its nodes are counted by the task whose remaining prefix ops are all index 0 (so every node is counted once)
           for (size_t i = 0; i < tasks[next].size() && !dead; i++) {
             int k = tasks[next][i]; Model M2 = M; std::string note; Op o = resolve(SP.ops[k], M); Outcome exp = model_op(o, M2, note);
+#ifndef MASA_EXCEPTIONS
             if (exp.fatal) { dead = true; break; }  // a prefix through an expected fatal error has no continuation
+#endif
             pure_apply(SP.ops[k], M); hist.push_back(k);  // the comparisons along the prefix are made by the depth-1/2 part of the tree below
           }
           if (tasks[next].empty()) cnt = seq_dfs(SP, M, hist, plen, fo, t_end, to); else if (!dead && seqdepth > plen) cnt = seq_dfs(SP, M, hist, seqdepth - plen, fo, t_end, to);
@@ -572,6 +578,12 @@ static Space make_space(const std::string& id) {
       S.ops.push_back(opSet(r, "u_0", 7.5L)); S.ops.push_back(mk(GETNAME, r));
       if (r == 0) { S.ops.push_back(opEval(r, "source_rho_u", "S", 0)); S.ops.push_back(opInit(r, "heateq_2d_steady_const", "no_such_solution")); S.ops.push_back(opInit(r, "euler_1d", "euler_1dd")); }
     }
+  } else if (id == "c16s") {
+    // registry alphabet with misuse for the all-sequences exploration: in the exception build the history continues through every caught failure
+    S.solutions = {"euler_1d", "heateq_2d_steady_const"};
+    S.ops = {opInit(0, "a", "euler_1d"), opInit(0, "b", "heateq_2d_steady_const"), opSel(0, "a"), opSel(0, "b"), opSet(0, "u_0", 7.5L), mk(GETNAME, 0), mk(LIST, 0),
+             opInit(0, "a", "euler_1dd"), opInit(0, "b", "no_such_solution"), opInit(0, "c", "no_such_solution"), opSel(0, "nosuch")};
+    if (g_tier) { S.ops.push_back(opInit(1, "a", "euler_1d")); S.ops.push_back(opInit(1, "a", "nosuch")); }
   } else if (id == "c16v") {
     // failed calls on handles that own large vectors: a failed masa_init on an existing (selected or not) handle must leave the vectors of
     // every instance untouched; 600 entries = 4800 bytes, beyond any small-buffer threshold
